@@ -1,5 +1,5 @@
 /- The UNSUGARED spelling (`c:pk_k(K)`, `and_v(X,1)`, `or_i(0,X)`, `or_i(X,0)`, `andor(X,Y,0)`,
-`expr_raw_pkh(H)` for the bare raw key hash) and its round trip: every spelling the parser accepts
+`c:expr_raw_pkh(H)`) and its round trip: every spelling the parser accepts
 for an AST denotes that AST. -/
 import MsVerif.Lemmas.DisplayMain
 
@@ -43,50 +43,14 @@ end
 
 def plainTree (c : Codec) (m : Ms) : Tree := plainTreeW c [] m
 
-/-- `localOk` without the exclusion of raw key hashes -/
-def rangeOk : Ms → Bool
-  | .after n => decide (1 ≤ n ∧ n ≤ 2147483647)
-  | .older n => decide (1 ≤ n ∧ n ≤ 2147483647)
-  | .thresh k xs => decide (1 ≤ k ∧ k ≤ xs.length ∧ k ≤ 4294967295)
-  | .multi k ks => decide (1 ≤ k ∧ k ≤ ks.length ∧ ks.length ≤ 20)
-  | .sortedMulti k ks => decide (1 ≤ k ∧ k ≤ ks.length ∧ ks.length ≤ 20)
-  | .multiA k ks => decide (1 ≤ k ∧ k ≤ ks.length ∧ ks.length ≤ 999)
-  | .sortedMultiA k ks => decide (1 ≤ k ∧ k ≤ ks.length ∧ ks.length ≤ 999)
-  | _ => true
-
-def nodeOkX (c : Codec) (m : Ms) : Bool :=
-  (typeOf m).isSome && decide (height m ≤ MAX_RECURSION_DEPTH) && c.gv m && rangeOk m && atomsOk c m
-
-theorem nodeOkX_iff (c : Codec) (m : Ms) :
-    nodeOkX c m = true ↔
-      (typeOf m).isSome = true ∧ height m ≤ MAX_RECURSION_DEPTH ∧ c.gv m = true ∧ rangeOk m = true
-        ∧ atomsOk c m = true := by
-  simp [nodeOkX, and_assoc]
-
-theorem rangeOk_of_localOk (m : Ms) (h : localOk m = true) : rangeOk m = true := by
-  cases m <;> simp_all [localOk, rangeOk]
-
-theorem nodeOkX_of_nodeOk (c : Codec) (m : Ms) (h : nodeOk c m = true) : nodeOkX c m = true := by
-  obtain ⟨a, b, d, e, f⟩ := (nodeOk_iff c m).1 h
-  exact (nodeOkX_iff c m).2 ⟨a, b, d, rangeOk_of_localOk m e, f⟩
-
-theorem mk_okX (c : Codec) (m : Ms) (h : nodeOkX c m = true) : mk c m = .ok m := by
-  obtain ⟨ht, hh, hg, _, _⟩ := (nodeOkX_iff c m).1 h
-  unfold mk
-  cases hty : typeOf m with
-  | none => rw [hty] at ht; cases ht
-  | some _ =>
-    have : ¬ height m > MAX_RECURSION_DEPTH := by omega
-    simp [this, hg]
-
 theorem wrap_stepX (c : Codec) (ws : List W) (w : W) (x : Ms)
-    (hmk : nodeOkX c (w.apply x) = true)
+    (hmk : nodeOk c (w.apply x) = true)
     (ih : fromTreeI c (plainTreeW c ((ws ++ [w]).map W.char) x) = wrapAll c (ws ++ [w]) (.ok x)) :
     fromTreeI c (plainTreeW c (ws.map W.char ++ [w.char]) x) = wrapAll c ws (.ok (w.apply x)) := by
   have e : (ws ++ [w]).map W.char = ws.map W.char ++ [w.char] := by simp
   rw [e, wrapAll_snoc] at ih
   rw [ih]
-  simp only [mk_okX c _ hmk]
+  simp only [mk_ok c _ hmk]
 
 theorem plainTreeList_length (c : Codec) : ∀ xs : MsList, (plainTreeList c xs).length = xs.length
   | .nil => rfl
@@ -94,45 +58,45 @@ theorem plainTreeList_length (c : Codec) : ∀ xs : MsList, (plainTreeList c xs)
 
 mutual
 theorem rtXW (c : Codec) :
-    ∀ (m : Ms) (ws : List W), Ms.all (nodeOkX c) m = true →
+    ∀ (m : Ms) (ws : List W), Ms.all (nodeOk c) m = true →
       fromTreeI c (plainTreeW c (ws.map W.char) m) = wrapAll c ws (.ok m)
   | .tru, ws, _ => by
-    rw [plainTreeW]; exact fromTreeI_core c ws .tru [] .tru (by decide) rfl
+    rw [plainTreeW]; exact fromTreeI_core c ws .tru [] .tru rfl
   | .fls, ws, _ => by
-    rw [plainTreeW]; exact fromTreeI_core c ws .fls [] .fls (by decide) rfl
+    rw [plainTreeW]; exact fromTreeI_core c ws .fls [] .fls rfl
   | .pkK k, ws, hall => by
-    have ha := ((nodeOkX_iff c _).1 (by simpa [Ms.all] using hall)).2.2.2.2
+    have ha := ((nodeOk_iff c _).1 (by simpa [Ms.all] using hall)).2.2.2.2
     simp only [atomsOk, beq_iff_eq] at ha
     rw [plainTreeW]
-    exact fromTreeI_core c ws .pk_k _ _ (by decide) (termParent_leaf _ _ _ k ha)
+    exact fromTreeI_core c ws .pk_k _ _ (termParent_leaf _ _ _ k ha)
   | .pkH k, ws, hall => by
-    have ha := ((nodeOkX_iff c _).1 (by simpa [Ms.all] using hall)).2.2.2.2
+    have ha := ((nodeOk_iff c _).1 (by simpa [Ms.all] using hall)).2.2.2.2
     simp only [atomsOk, beq_iff_eq] at ha
     rw [plainTreeW]
-    exact fromTreeI_core c ws .pk_h _ _ (by decide) (termParent_leaf _ _ _ k ha)
+    exact fromTreeI_core c ws .pk_h _ _ (termParent_leaf _ _ _ k ha)
   | .rawPkH h, ws, hall => by
-    have ha := ((nodeOkX_iff c _).1 (by simpa [Ms.all] using hall)).2.2.2.2
+    have ha := ((nodeOk_iff c _).1 (by simpa [Ms.all] using hall)).2.2.2.2
     simp only [atomsOk, beq_iff_eq] at ha
     rw [plainTreeW]
-    exact fromTreeI_core c ws .rawPkh _ _ (by decide) (termParent_leaf _ _ _ h ha)
+    exact fromTreeI_core c ws .rawPkh _ _ (termParent_leaf _ _ _ h ha)
   | .after n, ws, hall => by
     rw [plainTreeW]
     have hn : 1 ≤ n ∧ n ≤ 2147483647 := by
-      have := ((nodeOkX_iff c _).1 (by simpa [Ms.all] using hall)).2.2.2.1
-      simpa [rangeOk] using this
-    exact fromTreeI_core c ws .after _ _ (by decide) (lockParent_leaf n _ hn)
+      have := ((nodeOk_iff c _).1 (by simpa [Ms.all] using hall)).2.2.2.1
+      simpa [localOk] using this
+    exact fromTreeI_core c ws .after _ _ (lockParent_leaf n _ hn)
   | .older n, ws, hall => by
     rw [plainTreeW]
     have hn : 1 ≤ n ∧ n ≤ 2147483647 := by
-      have := ((nodeOkX_iff c _).1 (by simpa [Ms.all] using hall)).2.2.2.1
-      simpa [rangeOk] using this
-    exact fromTreeI_core c ws .older _ _ (by decide) (lockParent_leaf n _ hn)
+      have := ((nodeOk_iff c _).1 (by simpa [Ms.all] using hall)).2.2.2.1
+      simpa [localOk] using this
+    exact fromTreeI_core c ws .older _ _ (lockParent_leaf n _ hn)
   | .hash kind h, ws, hall => by
-    have ha := ((nodeOkX_iff c _).1 (by simpa [Ms.all] using hall)).2.2.2.2
+    have ha := ((nodeOk_iff c _).1 (by simpa [Ms.all] using hall)).2.2.2.2
     simp only [atomsOk, beq_iff_eq] at ha
     rw [plainTreeW]
     cases kind <;>
-      exact fromTreeI_core c ws _ _ _ (by decide) (termParent_leaf _ _ _ h ha)
+      exact fromTreeI_core c ws _ _ _ (termParent_leaf _ _ _ h ha)
   | .alt x, ws, hall => by
     simp only [Ms.all, Bool.and_eq_true] at hall
     rw [plainTreeW]; exact wrap_stepX c ws .a x hall.1 (rtXW c x (ws ++ [.a]) hall.2)
@@ -159,118 +123,118 @@ theorem rtXW (c : Codec) :
     have ihl := rtXW c l [] hall.1.2
     have ihr := rtXW c r [] hall.2
     rw [plainTreeW]
-    refine fromTreeI_core c ws .and_v _ _ (by decide) ?_
+    refine fromTreeI_core c ws .and_v _ _ ?_
     simp only [parseCore, fromTreeL_two]
     rw [show ([] : List Char) = ([] : List W).map W.char from rfl, ihl, ihr]
-    exact binary_ok c l r .andV (mk_okX c _ hall.1.1)
+    exact binary_ok c l r .andV (mk_ok c _ hall.1.1)
   | .andB l r, ws, hall => by
     simp only [Ms.all, Bool.and_eq_true] at hall
     have ihl := rtXW c l [] hall.1.2
     have ihr := rtXW c r [] hall.2
     rw [plainTreeW]
-    refine fromTreeI_core c ws .and_b _ _ (by decide) ?_
+    refine fromTreeI_core c ws .and_b _ _ ?_
     simp only [parseCore, fromTreeL_two]
     rw [show ([] : List Char) = ([] : List W).map W.char from rfl, ihl, ihr]
-    exact binary_ok c l r .andB (mk_okX c _ hall.1.1)
+    exact binary_ok c l r .andB (mk_ok c _ hall.1.1)
   | .orB l r, ws, hall => by
     simp only [Ms.all, Bool.and_eq_true] at hall
     have ihl := rtXW c l [] hall.1.2
     have ihr := rtXW c r [] hall.2
     rw [plainTreeW]
-    refine fromTreeI_core c ws .or_b _ _ (by decide) ?_
+    refine fromTreeI_core c ws .or_b _ _ ?_
     simp only [parseCore, fromTreeL_two]
     rw [show ([] : List Char) = ([] : List W).map W.char from rfl, ihl, ihr]
-    exact binary_ok c l r .orB (mk_okX c _ hall.1.1)
+    exact binary_ok c l r .orB (mk_ok c _ hall.1.1)
   | .orD l r, ws, hall => by
     simp only [Ms.all, Bool.and_eq_true] at hall
     have ihl := rtXW c l [] hall.1.2
     have ihr := rtXW c r [] hall.2
     rw [plainTreeW]
-    refine fromTreeI_core c ws .or_d _ _ (by decide) ?_
+    refine fromTreeI_core c ws .or_d _ _ ?_
     simp only [parseCore, fromTreeL_two]
     rw [show ([] : List Char) = ([] : List W).map W.char from rfl, ihl, ihr]
-    exact binary_ok c l r .orD (mk_okX c _ hall.1.1)
+    exact binary_ok c l r .orD (mk_ok c _ hall.1.1)
   | .orC l r, ws, hall => by
     simp only [Ms.all, Bool.and_eq_true] at hall
     have ihl := rtXW c l [] hall.1.2
     have ihr := rtXW c r [] hall.2
     rw [plainTreeW]
-    refine fromTreeI_core c ws .or_c _ _ (by decide) ?_
+    refine fromTreeI_core c ws .or_c _ _ ?_
     simp only [parseCore, fromTreeL_two]
     rw [show ([] : List Char) = ([] : List W).map W.char from rfl, ihl, ihr]
-    exact binary_ok c l r .orC (mk_okX c _ hall.1.1)
+    exact binary_ok c l r .orC (mk_ok c _ hall.1.1)
   | .orI l r, ws, hall => by
     simp only [Ms.all, Bool.and_eq_true] at hall
     have ihl := rtXW c l [] hall.1.2
     have ihr := rtXW c r [] hall.2
     rw [plainTreeW]
-    refine fromTreeI_core c ws .or_i _ _ (by decide) ?_
+    refine fromTreeI_core c ws .or_i _ _ ?_
     simp only [parseCore, fromTreeL_two]
     rw [show ([] : List Char) = ([] : List W).map W.char from rfl, ihl, ihr]
-    exact binary_ok c l r .orI (mk_okX c _ hall.1.1)
+    exact binary_ok c l r .orI (mk_ok c _ hall.1.1)
   | .andOr a b z, ws, hall => by
     simp only [Ms.all, Bool.and_eq_true] at hall
     have iha := rtXW c a [] hall.1.1.2
     have ihb := rtXW c b [] hall.1.2
     have ihz := rtXW c z [] hall.2
     rw [plainTreeW]
-    refine fromTreeI_core c ws .andor _ _ (by decide) ?_
+    refine fromTreeI_core c ws .andor _ _ ?_
     simp only [parseCore, fromTreeL_three]
     rw [show ([] : List Char) = ([] : List W).map W.char from rfl, iha, ihb, ihz]
-    simp [wrapAll, mk_okX c _ hall.1.1.1]
+    simp [wrapAll, mk_ok c _ hall.1.1.1]
   | .thresh k xs, ws, hall => by
     simp only [Ms.all, Bool.and_eq_true] at hall
     have ihxs := rtXL c xs hall.2
-    have hloc := ((nodeOkX_iff c _).1 hall.1).2.2.2.1
-    simp only [rangeOk, decide_eq_true_eq] at hloc
+    have hloc := ((nodeOk_iff c _).1 hall.1).2.2.2.1
+    simp only [localOk, decide_eq_true_eq] at hloc
     rw [plainTreeW]
-    refine fromTreeI_core c ws .thresh _ _ (by decide) ?_
+    refine fromTreeI_core c ws .thresh _ _ ?_
     simp only [parseCore]
     rw [threshK_ok 0 k _ hloc.1 (by rw [plainTreeList_length]; exact hloc.2.1) hloc.2.2 (Or.inl rfl)]
     simp only [fromTreeL, List.tail_cons, ihxs, collect_map_ok, ofList_toList]
-    exact mk_okX c _ hall.1
+    exact mk_ok c _ hall.1
   | .multi k ks, ws, hall => by
-    have hn : nodeOkX c (.multi k ks) = true := by simpa [Ms.all] using hall
-    have hloc := ((nodeOkX_iff c _).1 hn).2.2.2.1
-    have hat := ((nodeOkX_iff c _).1 hn).2.2.2.2
+    have hn : nodeOk c (.multi k ks) = true := by simpa [Ms.all] using hall
+    have hloc := ((nodeOk_iff c _).1 hn).2.2.2.1
+    have hat := ((nodeOk_iff c _).1 hn).2.2.2.2
     simp only [atomsOk] at hat
-    simp only [rangeOk, decide_eq_true_eq] at hloc
+    simp only [localOk, decide_eq_true_eq] at hloc
     rw [plainTreeW]
-    refine fromTreeI_core c ws .multi _ _ (by decide) ?_
+    refine fromTreeI_core c ws .multi _ _ ?_
     simp only [parseCore]
-    exact keysThresh_ok c 20 k ks .multi hloc.1 hloc.2.1 hloc.2.2 (by omega) hat (mk_okX c _ hn)
+    exact keysThresh_ok c 20 k ks .multi hloc.1 hloc.2.1 hloc.2.2 (by omega) hat (mk_ok c _ hn)
   | .sortedMulti k ks, ws, hall => by
-    have hn : nodeOkX c (.sortedMulti k ks) = true := by simpa [Ms.all] using hall
-    have hloc := ((nodeOkX_iff c _).1 hn).2.2.2.1
-    have hat := ((nodeOkX_iff c _).1 hn).2.2.2.2
+    have hn : nodeOk c (.sortedMulti k ks) = true := by simpa [Ms.all] using hall
+    have hloc := ((nodeOk_iff c _).1 hn).2.2.2.1
+    have hat := ((nodeOk_iff c _).1 hn).2.2.2.2
     simp only [atomsOk] at hat
-    simp only [rangeOk, decide_eq_true_eq] at hloc
+    simp only [localOk, decide_eq_true_eq] at hloc
     rw [plainTreeW]
-    refine fromTreeI_core c ws .sortedmulti _ _ (by decide) ?_
+    refine fromTreeI_core c ws .sortedmulti _ _ ?_
     simp only [parseCore]
-    exact keysThresh_ok c 20 k ks .sortedMulti hloc.1 hloc.2.1 hloc.2.2 (by omega) hat (mk_okX c _ hn)
+    exact keysThresh_ok c 20 k ks .sortedMulti hloc.1 hloc.2.1 hloc.2.2 (by omega) hat (mk_ok c _ hn)
   | .multiA k ks, ws, hall => by
-    have hn : nodeOkX c (.multiA k ks) = true := by simpa [Ms.all] using hall
-    have hloc := ((nodeOkX_iff c _).1 hn).2.2.2.1
-    have hat := ((nodeOkX_iff c _).1 hn).2.2.2.2
+    have hn : nodeOk c (.multiA k ks) = true := by simpa [Ms.all] using hall
+    have hloc := ((nodeOk_iff c _).1 hn).2.2.2.1
+    have hat := ((nodeOk_iff c _).1 hn).2.2.2.2
     simp only [atomsOk] at hat
-    simp only [rangeOk, decide_eq_true_eq] at hloc
+    simp only [localOk, decide_eq_true_eq] at hloc
     rw [plainTreeW]
-    refine fromTreeI_core c ws .multi_a _ _ (by decide) ?_
+    refine fromTreeI_core c ws .multi_a _ _ ?_
     simp only [parseCore]
-    exact keysThresh_ok c 999 k ks .multiA hloc.1 hloc.2.1 hloc.2.2 (by omega) hat (mk_okX c _ hn)
+    exact keysThresh_ok c 999 k ks .multiA hloc.1 hloc.2.1 hloc.2.2 (by omega) hat (mk_ok c _ hn)
   | .sortedMultiA k ks, ws, hall => by
-    have hn : nodeOkX c (.sortedMultiA k ks) = true := by simpa [Ms.all] using hall
-    have hloc := ((nodeOkX_iff c _).1 hn).2.2.2.1
-    have hat := ((nodeOkX_iff c _).1 hn).2.2.2.2
+    have hn : nodeOk c (.sortedMultiA k ks) = true := by simpa [Ms.all] using hall
+    have hloc := ((nodeOk_iff c _).1 hn).2.2.2.1
+    have hat := ((nodeOk_iff c _).1 hn).2.2.2.2
     simp only [atomsOk] at hat
-    simp only [rangeOk, decide_eq_true_eq] at hloc
+    simp only [localOk, decide_eq_true_eq] at hloc
     rw [plainTreeW]
-    refine fromTreeI_core c ws .sortedmulti_a _ _ (by decide) ?_
+    refine fromTreeI_core c ws .sortedmulti_a _ _ ?_
     simp only [parseCore]
-    exact keysThresh_ok c 999 k ks .sortedMultiA hloc.1 hloc.2.1 hloc.2.2 (by omega) hat (mk_okX c _ hn)
+    exact keysThresh_ok c 999 k ks .sortedMultiA hloc.1 hloc.2.1 hloc.2.2 (by omega) hat (mk_ok c _ hn)
 theorem rtXL (c : Codec) :
-    ∀ (xs : MsList), MsList.all (nodeOkX c) xs = true →
+    ∀ (xs : MsList), MsList.all (nodeOk c) xs = true →
       fromTreeL c (plainTreeList c xs) = xs.toList.map Except.ok
   | .nil, _ => by simp [plainTreeList, fromTreeL, MsList.toList]
   | .cons x xs, hall => by
